@@ -93,22 +93,28 @@ CHECKS = {
              "kf_C04_accept_all (D6) is a known finding.",
         design="DESIGN.md section 6 C04"),
     "C06": dict(
-        text="Theorems (any data model in which only callables are called, conditions without comprehensions and dict "
-             "displays): if Python evaluates the condition to v, the re-evaluator returns v, ends in the same tables and "
+        text="Theorems (any data model in which only callables are called, conditions without comprehensions): if "
+             "Python evaluates the condition to v, the re-evaluator returns v, ends in the same tables and "
              "records exactly the nodes Python evaluated with Python's values in Python's order "
              "(C06_reevaluation_is_evaluation, by mutual induction over the 7 syntactic categories; C06_sound, C06_complete); "
+             "for ALL conditions - comprehensions, generator expressions, all(<generator>) included - and every data model: "
+             "whenever the re-evaluator returns it returns Python's value and its record outside comprehension scopes is "
+             "Python's log (C06_reevaluation_agrees_whenever_it_returns, C06_sound_all, C06_complete_all; Proofs/ExprSound.v "
+             "over the range lemmas of Proofs/ExprRange.v); "
              "a line is a recorded value or a representable argument, every representable argument is listed "
              "(C06_lines_come_from_the_record, C06_arguments_listed); the example of a failing all() is the first "
              "falsifying assignment (C06_all_first). Tie: correspondence - the model's Python semantics against instrumented "
              "CPython node by node, the re-evaluator model against Visitor.recomputed_values and the message lines (objects "
              "handed to a_repr), spec_C06 on the implementation's observation.",
-        note=TB + "Partial: comprehensions are outside the refinement theorem (correspondence only). "
+        note=TB + "Partial: that the re-evaluator returns at all is proved without comprehensions only (with them: finding D12b); "
+             "values shown for nodes inside comprehension scopes rest on the correspondence. "
              "Recorded finding D21 (names inside f-strings are not listed; C06_fstring_inner_refuted).",
         design="DESIGN.md section 6 C06"),
     "C07": dict(
         text="Theorems: for conditions without comprehensions the re-evaluator returns whenever Python's "
              "evaluation did (C07_no_replacement_partial) and records nothing Python did not evaluate - no operand skipped "
-             "by short-circuiting is evaluated (C07_no_extra_evaluation_partial); message = location, description, text, "
+             "by short-circuiting is evaluated (C07_no_extra_evaluation_partial; for all conditions incl. comprehensions whenever "
+             "the re-evaluator returns: C07_no_extra_evaluation); message = location, description, text, "
              "lines (C07_message_shape); D12b exhibited (C07_speculative_refuted). Tie: correspondence with the guard shapes "
              "first, exception class at the caller, condition text parsed back, evaluated nodes against CPython's; layouts "
              "of the decorator by enumeration (7 layouts x 3 nestings x description).",
